@@ -305,6 +305,9 @@ def _inline_site(F, bi, k, G, form):
     for p, a in zip(G["params"], call.get("a", [])):
         if threaded is not None and p["n"] == threaded:
             continue
+        a0 = strip_casts(a)
+        if isinstance(a0, dict) and a0.get("k") == "var" and a0.get("n") == ren[p["n"]]:
+            continue       # the parameter reuses the caller's (dead) variable of that name and is bound to it: nothing to bind
         binds.append({"e": "decl", "l": call["l"], "n": ren[p["n"]], "t": p["t"], "init": copy.deepcopy(a), "inlined_param": True})
     B["ev"] = B["ev"][:k] + binds
     B["succ"] = [idmap[G["entry"]]]
@@ -605,7 +608,8 @@ def inline_new_locals(jf, frozen_names):
             if not _pure(E) or t in vars_in(E):
                 continue
             def_at[(b["id"], i)] = len(defs)
-            defs.append((t, E, vars_in(E), {n["f"] for n in _value_reads(E) if n.get("k") == "mem"},
+            defs.append((t, E, {n["n"] for n in _value_reads(E) if n.get("k") == "var"},      # `&v` does not depend on v's value
+                         {n["f"] for n in _value_reads(E) if n.get("k") == "mem"},
                          _reads_pointer_memory(E, local_arrays), _reads_deref(E, local_arrays)))
     if not defs:
         return []
